@@ -55,7 +55,7 @@ class ScriptedRNG:
             elif mode < 0.30:    # u close to one: rejects almost anything
                 v = 1 - Fraction(self.r.randint(1, 1 << 10), 1 << 30)
             else:
-                v = Fraction(self.r.randint(0, (1 << self.ub) - 1), 1 << self.ub)
+                v = Fraction(self.r.randint(1, (1 << self.ub) - 1), 1 << self.ub)
         self.log.append(("uniform", v))
         return float(v)
 
